@@ -286,4 +286,23 @@ CHECKS = {
         "level_text": "Seeded exploration of single-tenant write histories near the quota limit (sequential with restarts, and concurrent under seeded schedules) through the real in-process server; counter == live judged after every step.",
         "level_note": "trusted base: ground truth = cold-tier metadata-index lookup of the tenant index; E2 lock model",
     },
+    "C15": {
+        "level": "exploration",
+        "design_ref": "DESIGN.md section 5/C15",
+        "engine": "E3 in-process server (real handlers, validators, generated router/codec, panic containment layer)",
+        "technique": "deterministic simulation: seeded scripts of structurally generated boundary / pathological requests against the real server run in-process; after every call the delivered status, the canonical collection (ground truth) and continued service are judged, then the server is restarted and the collection compared again",
+        "rule": "script = 3 baseline documents (one sentinel) + 4-18 calls (6-40 thorough); each call picks an RPC (Insert, BulkInsert, BulkLoadHnsw, Delete, UpdateMetadata, Query, BulkQuery, Search, BulkSearch, BatchDelete ids/filter/none, FlushHotTier, raw undecodable frames on every method, unknown methods) "
+                "and with probability 2/3 poisons fields: ids {0, u32::MAX, u32::MAX+1, u64::MAX}; vectors {empty, 4097 lanes, 4096 lanes, dim-1, dim+1, NaN, +inf, -inf, all 0.0, all -0.0, all f32::MAX, smallest denormal, +-3e38, 1 lane}; k {0, 999, 1000, 1001, u32::MAX}; ef {1, 10000, 10001, u32::MAX}; "
+                "min_score {NaN, +-inf, 2, -1, denormal}; filters {unset oneof, range without bound, NOT without operand, empty AND/OR/IN, 300-way AND, 2000-value IN, nesting 20..5000 levels of NOT/AND/OR, non-numeric range bounds}; metadata {70 kB value, empty key, 200 keys, reserved key}; "
+                "streams of 0-6 items mixing valid and poisoned ones, streams and id lists of 10001-10003 entries. Each item / request is classified valid, invalid or borderline (zero, overflowing-norm, denormal vectors, deep-but-decodable filters: may be refused or accepted). "
+                "Judged per call: (1) a gRPC status reached the client and any response frame decodes; (2) invalid requests are refused (non-OK status or success=false with nothing accepted); (3) the canonical collection (ids, stored vectors, full metadata) changed exactly as the valid items allow: "
+                "no invalid item applied on any write path, every valid item applied, borderline items applied only with a finite stored vector, per-item accepted/failed counts within the class bounds; read-only and refused calls change nothing; (4) the sentinel is still served after every call and a final valid search answers; "
+                "(5) persistent configs: restart, recovered collection == live collection. evaluations = calls judged. distinct_nontrivial = distinct status-code sequences.",
+        "assumptions": ["requests enter at the tower Service boundary (no HTTP/2 framing limits, no max message size of the transport)", "the model of valid UpdateMetadata / Delete / BatchDelete effects is the documented one (C10/C11 references)",
+                        "which copy of a duplicated id wins inside one BulkLoadHnsw batch is not judged"],
+        "expected_probes": ["status_0", "status_3", "status_13", "status_12", "restart_census"],
+        "tiers": {"quick": {"runs_per_worker": 1000000, "budget_s": 40}, "thorough": {"runs_per_worker": 10000000, "budget_s": 900}},
+        "level_text": "Seeded structural exploration of RPC x field x boundary value through the real in-process server with ground-truth census after every call and after restart.",
+        "level_note": "trusted base: prost encode/decode of the harness, classification of items into valid / invalid / borderline, cold-tier census",
+    },
 }
